@@ -24,25 +24,36 @@ import (
 //	err v=<variant>            Alignment() returned an error
 //	panic v=<variant>          the library panicked
 //
-// variant: 0 = aligner as shipped, 1 = aligner with the border repair (decided once by probing the
-// linked library with "A" vs "A": the shipped code reports score 0).  The oracle runs the model of
-// that variant.
+// variant = border + 2*alphabet, decided once by probing the linked library:
+//   border   1 = aligner with the border repair ("A" vs "A" scores > 0; the shipped code reports 0)
+//   alphabet 1 = matrix chosen by membership in the index maps ("A*" vs "A*" is aligned with
+//                BLOSUM62; the shipped code sends it to DNAfull and returns an error)
+// The oracle runs the model of that variant.
 var (
 	swVariantOnce sync.Once
 	swVariant     int
 )
 
+func swProbeOne(s string) (score float64, ok bool) {
+	defer func() {
+		if r := recover(); r != nil {
+			ok = false
+		}
+	}()
+	a := align.NewPwAligner(align.NewSequence("s1", []uint8(s), ""), align.NewSequence("s2", []uint8(s), ""), align.ALIGN_ALGO_SW)
+	if _, err := a.Alignment(); err != nil {
+		return 0, false
+	}
+	return a.MaxScore(), true
+}
+
 func swProbe() int {
 	swVariantOnce.Do(func() {
-		defer func() {
-			if r := recover(); r != nil {
-				swVariant = 0
-			}
-		}()
-		a := align.NewPwAligner(align.NewSequence("s1", []uint8("A"), ""), align.NewSequence("s2", []uint8("A"), ""), align.ALIGN_ALGO_SW)
-		a.SetScore(1, -1)
-		if _, err := a.Alignment(); err == nil && a.MaxScore() > 0 {
-			swVariant = 1
+		if sc, ok := swProbeOne("A"); ok && sc > 0 {
+			swVariant |= 1
+		}
+		if _, ok := swProbeOne("A*"); ok {
+			swVariant |= 2
 		}
 	})
 	return swVariant
